@@ -156,6 +156,22 @@ def build(inp):
             c.why = "path algebra: %s" % (alg,)
         if dyn is not None and not isinstance(dyn, E) and dyn != obs[0]:
             c.why = "gindex(view) = %d differs from the static gindex %d" % (dyn, obs[0])
+        if nav is not None and not isinstance(nav, E):
+            # Path.navigate_view(value) = navigating the views key by key (same class, same content)
+            def stepwise():
+                y = x
+                for k_ in keys:
+                    y = y.navigate_view(k_)
+                return y
+            sw = attempt(stepwise, anyerr=True)
+            if not isinstance(sw, E):
+                try:
+                    same = type(nav) is type(sw) and bytes(nav.encode_bytes()) == bytes(sw.encode_bytes()) and \
+                        bytes(nav.hash_tree_root()) == bytes(sw.hash_tree_root())
+                except Exception:
+                    same = False
+                if not same:
+                    c.why = "Path.navigate_view(value) is not what navigating the views key by key gives"
         if nav is not None and not isinstance(nav, E) and not isinstance(obs[2], E):
             try:
                 from remerkleable.core import BasicView
